@@ -56,7 +56,7 @@ func (c11) Floors(string) []runner.Floor {
 // ---- enumeration ----
 
 type lcOp struct {
-	K string `json:"k"` // act deact attach push detach remove
+	K string `json:"k"` // act deact attach attachx push detach remove (attachx = Attach with a checkpoint beyond the server state: fails after the attaching status was persisted)
 	C int    `json:"c"`
 	D int    `json:"d"`
 }
@@ -73,7 +73,7 @@ var lcAlphabet = func() []lcOp {
 	for c := 0; c < 2; c++ {
 		out = append(out, lcOp{K: "act", C: c}, lcOp{K: "deact", C: c})
 		for d := 0; d < 2; d++ {
-			for _, k := range []string{"attach", "push", "detach", "remove"} {
+			for _, k := range []string{"attach", "attachx", "push", "detach", "remove"} {
 				out = append(out, lcOp{K: k, C: c, D: d})
 			}
 		}
@@ -210,7 +210,7 @@ func (m *lcModel) step(o lcOp) bool {
 			return false
 		}
 		for d := 0; d < 2; d++ {
-			if m.att[o.C][d] == "attached" {
+			if m.att[o.C][d] == "attached" || m.att[o.C][d] == "attaching" {
 				m.att[o.C][d] = "detached"
 			}
 		}
@@ -231,11 +231,30 @@ func (m *lcModel) step(o lcOp) bool {
 		m.att[o.C][o.D] = "attached"
 		m.attInc[o.C][o.D] = m.docInc[o.D]
 		return true
+	case "attachx":
+		// always refused; but when the client may attach, the refusal comes after
+		// the "attaching" status was persisted (documented partial-failure residue)
+		if m.cli[o.C] != "act" {
+			return false
+		}
+		if ok, inc := m.attachedTo(o.C, o.D); ok && inc == m.docInc[o.D] && !m.docGone[o.D] {
+			return false
+		}
+		if m.docInc[o.D] == 0 || m.docGone[o.D] {
+			m.docInc[o.D]++
+			m.docGone[o.D] = false
+		}
+		m.att[o.C][o.D] = "attaching"
+		m.attInc[o.C][o.D] = m.docInc[o.D]
+		return false
 	case "push", "detach", "remove":
 		if m.cli[o.C] != "act" {
 			return false
 		}
 		ok, inc := m.attachedTo(o.C, o.D)
+		if !ok && o.K != "push" && m.att[o.C][o.D] == "attaching" {
+			ok, inc = true, m.attInc[o.C][o.D]
+		}
 		if !ok {
 			return false
 		}
@@ -381,7 +400,7 @@ func (lw *lcWorld) call(o lcOp, m *lcModel, expectOK bool) (bool, int, bool, str
 	// the document object used to build the pack: the real one for calls the model accepts, a throw-away otherwise
 	var d *document.Document
 	docID := lw.curDoc[o.D]
-	useReal := expectOK && o.K != "attach" && cl.docs[o.D] != nil
+	useReal := expectOK && o.K != "attach" && o.K != "attachx" && cl.docs[o.D] != nil
 	if useReal {
 		d = cl.docs[o.D]
 		docID = cl.dids[o.D]
@@ -393,7 +412,7 @@ func (lw *lcWorld) call(o lcOp, m *lcModel, expectOK bool) (bool, int, bool, str
 			a, _ := time.ActorIDFromHex(clientID)
 			d.SetActor(a)
 		}
-		if cl.dids[o.D] != "" && o.K != "attach" {
+		if cl.dids[o.D] != "" && o.K != "attach" && o.K != "attachx" {
 			docID = cl.dids[o.D] // the id this client knew last
 		}
 	}
@@ -407,6 +426,27 @@ func (lw *lcWorld) call(o lcOp, m *lcModel, expectOK bool) (bool, int, bool, str
 		})
 	}
 	switch o.K {
+	case "attachx":
+		_ = d.Update(func(root *yjson.Object, p *presence.Presence) error {
+			p.Initialize(map[string]string{"n": cl.key})
+			return nil
+		})
+		pack := d.CreateChangePack()
+		pb, _ := converter.ToChangePack(pack)
+		pb.Checkpoint.ServerSeq = 1 << 40
+		_, err := lw.rpc.AttachDocument(lw.ctx, hdr(connect.NewRequest(&api.AttachDocumentRequest{ClientId: clientID, ChangePack: pb}), lw.proj.PublicKey, dkey.String()))
+		// learn the id of the document the failed attach may have created
+		if di, e := lw.w.env.BE.DB.FindDocInfoByKey(lw.ctx, lw.proj.ID, dkey); e == nil && di != nil {
+			lw.known[di.ID.String()] = true
+			lw.curDoc[o.D] = di.ID.String()
+			if cl.has {
+				cl.dids[o.D] = di.ID.String()
+			}
+		}
+		if err != nil {
+			return false, len(pack.Changes), false, "", err.Error()
+		}
+		return true, len(pack.Changes), false, "", ""
 	case "attach":
 		_ = d.Update(func(root *yjson.Object, p *presence.Presence) error {
 			p.Initialize(map[string]string{"n": cl.key})
@@ -503,13 +543,21 @@ func (w *c11Worker) runSeq(res *runner.CaseResult, seq []lcOp) (string, string, 
 	removedDocs := map[string]bool{}
 	attachOK := false
 	for i, o := range seq {
+		if o.K == "attachx" && m.cli[o.C] == "act" && (m.att[o.C][o.D] != "none" || m.docGone[o.D]) {
+			// the failing attach is modelled only from the plain "never attached, document alive" state
+			res.AddStat("sequences_cut_at_unmodelled_attachx", 1)
+			break
+		}
 		probe := *m
 		expect := probe.step(o)
 		before := lw.observe()
 		// which attachment is concerned (for the post-conditions)
 		okAtt, _ := m.attachedTo(o.C, o.D)
+		if o.K != "act" && o.K != "deact" && m.att[o.C][o.D] == "attaching" {
+			okAtt = true
+		}
 		var targetDoc string
-		if okAtt && o.K != "act" && o.K != "deact" && o.K != "attach" {
+		if okAtt && o.K != "act" && o.K != "deact" && o.K != "attach" && o.K != "attachx" {
 			targetDoc = lw.cl[o.C].dids[o.D]
 		}
 		accepted, nChanges, isRemoved, docID, errText := lw.call(o, m, expect)
@@ -530,6 +578,11 @@ func (w *c11Worker) runSeq(res *runner.CaseResult, seq []lcOp) (string, string, 
 		}
 		if !accepted {
 			res.AddStat("rejected_calls_checked_for_side_effects", 1)
+			if o.K == "attachx" {
+				// the model may have moved to "attaching": compare only logs and rows
+				m.step(o)
+				after.client = before.client
+			}
 			if d := before.diff(after); d != "" {
 				return "rejected-call-has-side-effects", fmt.Sprintf("%s was rejected (%s) but: %s", where, errText, d), ident
 			}
